@@ -1,5 +1,6 @@
 import Tumfl.Theory.LexTotal
 import Tumfl.Theory.Hints
+import Tumfl.Theory.ParserWF
 /-!
 # C09  Parsing any text returns an AST or raises LexerError/ParserError
 
@@ -43,5 +44,20 @@ instance : GoodErr ParseErrOK where
 
 theorem C09_parser_errors (src : List Char) (e : PyErr) (h : parseText src = .error e) : ParseErrOK e :=
   parseText_err (G := ParseErrOK) src e h
+
+/-- no `assert` of lexer or parser is ever violated, whatever the text (the two `assert False` branches of the parser are unreachable,
+`Number.from_token` always sees a numeral tuple) -/
+theorem C09_no_assertion (src : List Char) (site : String) : parseText src ≠ .error (.py "AssertionError" site) :=
+  parseText_no_assertion src site
+
+/-- together: whatever the text, `parse` returns a tree, or raises LexerError or ParserError - or (model artefacts) hits the modelling
+border of lone surrogates or runs out of the model's fuel -/
+theorem C09_parse_total (src : List Char) (e : PyErr) (h : parseText src = .error e) :
+    Benign' e ∨ (∃ m t hs, e = .parser m t hs) ∨ e = .fuel := by
+  rcases C09_parser_errors src e h with hb | hp | ⟨site, hs⟩ | hf
+  · exact Or.inl hb
+  · exact Or.inr (Or.inl hp)
+  · exact absurd (hs ▸ h) (C09_no_assertion src site)
+  · exact Or.inr (Or.inr hf)
 
 end Tumfl.Props
